@@ -27,6 +27,9 @@ def main():
             print(f"gen_consts: {name}: {e}", file=sys.stderr)
             rc = 2
             continue
+        for a in genlib.ADVISORIES:
+            print(f"gen_consts: advisory: {name}: {a}")
+        del genlib.ADVISORIES[:]
         out = os.path.join(coq, mod.OUT)
         old = None
         if os.path.exists(out):
